@@ -26,7 +26,7 @@ from props import _dec, _gen, _inproc, c11
 
 PID = "C08"
 RULE = ("(1) rapidcheck tapes through the in-process targets roundtrip / bwt / collect / prefix / scan / decode_valid / "
-        "decode_defect / decode_raw built with ASan+UBSan and asserts on (input handed over in exact-size heap buffers of "
+        "decode_defect / decode_raw / decode_sym (symbol-level blocks: groups of fifty 20-bit codes, planted headers) built with ASan+UBSan and asserts on (input handed over in exact-size heap buffers of "
         "1..65536 words, output buffers of 1..900000 bytes, so that an over-read or over-write of a buffer edge is reported); "
         "(2) libFuzzer on decode_raw and roundtrip; (3) process level: ASan+UBSan and MSan binaries x {C11 input shapes: "
         "compression default/--sequential with 0-40 chunks, splitting chunks, decompression of tiny / run-heavy / flood / "
@@ -195,7 +195,7 @@ def run(tier, seed):
     quick = tier == "quick"
     # (1) in-process, rapidcheck
     budget = {"roundtrip": 30000, "bwt": 30000, "collect": 150000, "prefix": 3000, "scan": 150000, "decode_valid": 10000,
-              "decode_defect": 5000, "decode_raw": 60000}
+              "decode_defect": 5000, "decode_raw": 60000, "decode_sym": 32000}
     for prop, n in budget.items():
         res = _inproc.run_target(prop, seed + 40, n if quick else n * 60)
         _inproc.merge_into(stats, res, "inproc:%s:" % prop)
